@@ -258,7 +258,8 @@ package flamego
 //@     (forall m string, p string :: has(r.staticRoutes, m) && has(r.staticRoutes[m], p) ==> r.staticRoutes[m][p] != nil)
 
 //@ func (*router).ServeHTTP
-//@   props C07
+//@   props C07 C02
+//@   assert[C02] before dyn#1: params["route"] == routeStr(leafBase(leaf).route)
 //@   requires routerWF(r) && treeWF()
 //@   requires w != nil && req != nil && req.URL != nil
 //@   modifies req.chains, route.Segment.str, route.Segment.strOnce.fired, route.Route.str, route.Route.strOnce.fired
